@@ -153,3 +153,37 @@ Proof.
   - intros H1 H2. inversion H1; subst. assumption.
   - intros H1 H2. destruct c; simpl; now apply IH.
 Qed.
+
+(* ------------- helpers for the per-case correspondence (which branch of the clip is taken) ------------- *)
+Lemma clip_mid x m : - m <= x <= m -> clip x m = x.
+Proof. intros [A B]. unfold clip. rewrite Rmin_left by lra. apply Rmax_right. lra. Qed.
+Lemma clip_hi x m : 0 <= m -> m <= x -> clip x m = m.
+Proof. intros A B. unfold clip. rewrite Rmin_right by lra. apply Rmax_right. lra. Qed.
+Lemma clip_lo x m : 0 <= m -> x <= - m -> clip x m = - m.
+Proof. intros A B. unfold clip. rewrite Rmin_left by lra. apply Rmax_left. lra. Qed.
+
+Lemma P_zero_zeta g : g <> 0 -> P 0 g = 0.
+Proof.
+  intro Hg. unfold P. destruct (Req_EM_T (den g) 0) as [E|_]; [exfalso; apply Hg; now apply den_zero_iff|].
+  rewrite sgn_zero. unfold Rdiv. ring.
+Qed.
+
+(* mass scaling: with p >= 0 and m_min <= m the bound delta*(m_min/m)^p is itself at most delta *)
+Lemma scale_range mmin m p : 0 < mmin <= m -> 0 <= p -> 0 < scale_of mmin m p <= 1.
+Proof.
+  intros [A B] Hp. unfold scale_of, Rpower. split; [apply exp_pos|].
+  rewrite <- exp_0. apply exp_le.
+  assert (0 < mmin / m <= 1) as [C D].
+  { split; [apply Rdiv_lt_0_compat; lra|]. apply Rmult_le_reg_r with (r := m); [lra|].
+    unfold Rdiv. rewrite Rmult_assoc, Rinv_l by lra. lra. }
+  assert (ln (mmin / m) <= 0).
+  { rewrite <- ln_1. destruct D as [D|D]; [left; apply ln_increasing; lra|rewrite D; lra]. }
+  nra.
+Qed.
+Lemma disp_bound_scaled z delta mmin m p : -1 <= z <= 1 -> 0 <= delta -> 0 < mmin <= m -> 0 <= p ->
+  Rabs (disp z delta (scale_of mmin m p)) <= delta * scale_of mmin m p <= delta.
+Proof.
+  intros Hz Hd Hm Hp. pose proof (scale_range mmin m p Hm Hp) as [S1 S2]. split.
+  - apply disp_bound; lra.
+  - nra.
+Qed.
